@@ -18,9 +18,13 @@ Mk2(t, A, crs) == [op |-> "pair", hs |-> SumTo(t.sy, Len(t.sy)), ws |-> SumTo(t.
 PairCases(sx) == {Mk2(t, <<sx, 0, tx, 0, sy, ty>>, crs) : tx \in PShifts, sy \in {Abs(sx), -Abs(sx)}, ty \in {0, 2880, -1980, 7000}, t \in PairTilings, crs \in {"same", "other"}}
                  \cup {Mk2(t, <<0, -sx, tx, sx, 0, ty>>, "same") : tx \in {0, 4800, 9000}, ty \in {0, -3000, 7000}, t \in PairTilings}
                  \cup {Mk2(t, <<576, -768, tx, 768, 576, ty>>, "same") : tx \in {0, 4800, 9000}, ty \in {0, -3000, 7000}, t \in PairTilings}
+\* tiled pairs in really different CRSs (curved footprints): placement of the destination relative to the source footprint in tenths of its span
+RPairs == {[op |-> "rpair", pair |-> pr, dx |-> dx, dy |-> dy, st |-> st, dt |-> dt, zoom |-> z] :
+             pr \in {"32633>4326", "32633>3035", "4326>3857", "3035>32633", "3577>4326", "3575>4326"}, dx \in {-7, -3, 0, 4, 30}, dy \in {-6, 0, 5},
+             st \in {<<<<20, 20, 20>>, <<20, 20, 20>>>>, <<<<10, 30, 20>>, <<60>>>>, <<<<1, 59>>, <<30, 29, 1>>>>}, dt \in {<<<<16, 16, 16>>, <<16, 16, 16>>>>, <<<<48>>, <<1, 40, 7>>>>}, z \in {"same", "coarser"}}
 VARIABLE c
-Init == c \in {[k |-> "q", v |-> B] : B \in Bases} \cup {[k |-> "p", v |-> s] : s \in PScales}
-Next == "k" \in DOMAIN c /\ c' \in (IF c.k = "q" THEN QueryCases(c.v) ELSE PairCases(c.v)) /\ Emit(c')
+Init == c \in {[k |-> "r", v |-> 0]} \cup {[k |-> "q", v |-> B] : B \in Bases} \cup {[k |-> "p", v |-> s] : s \in PScales}
+Next == "k" \in DOMAIN c /\ c' \in (IF c.k = "q" THEN QueryCases(c.v) ELSE IF c.k = "r" THEN RPairs ELSE PairCases(c.v)) /\ Emit(c')
 Spec == Init /\ [][Next]_c
 \* design level: the transcribed linear path lists every needed source tile
 ModelOK == ("op" \in DOMAIN c /\ c.op = "pair" /\ IsST(c.A)) => LinearComplete([c |-> c, sy |-> c.sy, sx |-> c.sx, dy |-> c.dy, dx |-> c.dx])
